@@ -181,6 +181,110 @@ def tlcp_client(sock, deviation, client_chain=b"", client_d=0, other_d=12345, pr
     return res
 
 
+# ---------------------------------------------------------------------------------------------------------------------
+# TLS 1.3 (TLS_SM4_GCM_SM3, curve sm2p256v1, sm2sig_sm3 with the RFC 8998 identity)
+TLS13_ID = b"TLSv1.3+GM+Cipher+Suite"
+def xlabel(secret, label, ctx, n): return K.hkdf_expand_label(T, "sm3", secret, label, ctx, n)
+def derive(secret, label, transcript): return xlabel(secret, label, sm3(transcript), 32)
+
+
+class Peer13:
+    def __init__(self, sock):
+        self.s = sock; self.transcript = b""; self.wk = self.rk = None; self.wseq = self.rseq = 0
+    def set_write(self, secret): self.wk = (xlabel(secret, b"key", b"", 16), xlabel(secret, b"iv", b"", 12)); self.wseq = 0
+    def set_read(self, secret): self.rk = (xlabel(secret, b"key", b"", 16), xlabel(secret, b"iv", b"", 12)); self.rseq = 0
+    def send_plain(self, rtype, payload): self.s.sendall(bytes([rtype]) + b"\x03\x03" + u16(len(payload)) + payload)
+    def send_enc(self, rtype, payload):
+        body = K.tls13_body(T, self.wk[0], self.wk[1], self.wseq.to_bytes(8, "big"), rtype, payload, 0); self.wseq += 1
+        self.s.sendall(b"\x17\x03\x03" + u16(len(body)) + body)
+    def send_hs(self, t, body, enc=True):
+        m = hs(t, body); self.transcript += m
+        (self.send_enc if enc else self.send_plain)(22, m)
+    def recv_exact(self, n):
+        b = b""
+        while len(b) < n:
+            c = self.s.recv(n - len(b))
+            if not c: return None
+            b += c
+        return b
+    def recv_record(self):
+        h = self.recv_exact(5)
+        if not h: return None
+        body = self.recv_exact(int.from_bytes(h[3:5], "big"))
+        if body is None: return None
+        if h[0] == 23 and self.rk:
+            r = K.tls13_open(T, self.rk[0], self.rk[1], self.rseq.to_bytes(8, "big"), body); self.rseq += 1
+            return r if r else (0, None)
+        return h[0], body
+
+
+def tls13_client(sock, deviation, client_chain=b"", client_d=0, other_d=12345):
+    p = Peer13(sock)
+    crandom = bytes((i * 11 + 5) & 255 for i in range(32))
+    ce = 0x5151515151515151515151515151515151515151515151515151515151515151 % sm2ref.n
+    cP = sm2ref.mul(ce, sm2ref.G)
+    point = b"\x04" + sm2ref.i2b(cP[0]) + sm2ref.i2b(cP[1])
+    ext = lambda t, d: u16(t) + u16(len(d)) + d
+    exts = ext(43, b"\x02\x03\x04") + ext(10, u16(2) + u16(41)) + ext(13, u16(2) + u16(0x0708)) + ext(51, u16(4 + 65) + u16(41) + u16(65) + point)
+    p.send_hs(1, b"\x03\x03" + crandom + b"\x00" + u16(2) + b"\x00\xc6" + b"\x01\x00" + u16(len(exts)) + exts, enc=False)
+    r = p.recv_record()
+    if r is None or r[0] != 22:
+        return {"completed": False, "why": "no ServerHello: %r" % (r,)}
+    sh = r[1]; p.transcript += sh
+    b = sh[4:]; off = 2 + 32; off += 1 + b[off]; off += 3               # version, random, session id, suite, compression
+    el = int.from_bytes(b[off:off + 2], "big"); ex = b[off + 2:off + 2 + el]; sP = None; o = 0
+    while o < len(ex):
+        t = int.from_bytes(ex[o:o + 2], "big"); l = int.from_bytes(ex[o + 2:o + 4], "big"); d = ex[o + 4:o + 4 + l]; o += 4 + l
+        if t == 51: sP = (int.from_bytes(d[5:37], "big"), int.from_bytes(d[37:69], "big"))
+    shared = sm2ref.i2b(sm2ref.mul(ce, sP)[0])
+    zeros = bytes(32)
+    early = K.hkdf_extract(T, "sm3", zeros, zeros)
+    hsec = K.hkdf_extract(T, "sm3", derive(early, b"derived", b""), shared)
+    chs, shs = derive(hsec, b"c hs traffic", p.transcript), derive(hsec, b"s hs traffic", p.transcript)
+    master = K.hkdf_extract(T, "sm3", derive(hsec, b"derived", b""), zeros)
+    p.set_read(shs); p.set_write(chs)
+    creq = False; got_fin = False
+    while not got_fin:
+        r = p.recv_record()
+        if r is None or r[1] is None: return {"completed": False, "why": "server flight unreadable"}
+        if r[0] == 21: return {"completed": False, "alert": list(r[1])}
+        m = r[1]; t = m[0]
+        if t == 13: creq = True
+        if t == 20:
+            fk = xlabel(shs, b"finished", b"", 32)
+            if K.hmac(T, "sm3", fk, sm3(p.transcript)) != m[4:36]: return {"completed": False, "why": "server Finished wrong"}
+            got_fin = True
+        p.transcript += m
+    cap, sap = derive(master, b"c ap traffic", p.transcript), derive(master, b"s ap traffic", p.transcript)
+    chain = split_certs(client_chain) if client_chain else []
+    if creq and deviation != "no_cert_msg":
+        lst = b"" if deviation.startswith("empty_cert") else b"".join(u24(len(c)) + c + u16(0) for c in chain)
+        p.send_hs(11, b"\x00" + u24(len(lst)) + lst)
+    pre = p.transcript
+    if creq and deviation in ("honest", "cv_wrong_key", "cv_stale_transcript", "empty_cert_with_cv"):
+        d = client_d if deviation in ("honest", "cv_stale_transcript") else other_d
+        P = sm2ref.mul(d, sm2ref.G)
+        tr = p.transcript[:-10] if deviation == "cv_stale_transcript" else p.transcript
+        tbs = b"\x20" * 64 + b"TLS 1.3, client CertificateVerify\x00" + sm3(tr)
+        r_, s_ = sm2ref.sign(d, P, tbs, 0x3333333333333333333333333333333333333333, TLS13_ID)
+        sig = derw.seq(derw.dint(r_), derw.dint(s_))
+        p.send_hs(15, u16(0x0708) + u16(len(sig)) + sig)
+    fk = xlabel(chs, b"finished", b"", 32)
+    vd = K.hmac(T, "sm3", fk, sm3(p.transcript))
+    if deviation == "finished_wrong": vd = bytes([vd[0] ^ 1]) + vd[1:]
+    if deviation == "finished_plain": p.send_hs(20, vd, enc=False)
+    elif deviation != "no_finished": p.send_hs(20, vd)
+    p.set_write(cap); p.set_read(sap)
+    p.send_enc(23, b"ping")
+    # the server reports completion in its own trace; from here the peer only learns it by an alert or a hang-up
+    p.s.settimeout(3)
+    try:
+        r = p.recv_record()
+    except (socket.timeout, OSError):
+        r = "timeout"
+    return {"completed": False, "creq": creq, "after": str(r)[:60]}          # in TLS 1.3 the server Finished precedes client authentication: nothing to observe here
+
+
 def run(creddir, exe, proto, scred, strust, deviation, ccred="cli_d2", timeout=60):
     """spawn the library server on one end of a socketpair, play the rogue client on the other; returns (client view, server events)"""
     a, b = socket.socketpair()
@@ -193,7 +297,7 @@ def run(creddir, exe, proto, scred, strust, deviation, ccred="cli_d2", timeout=6
     chain = open(os.path.join(creddir, ccred, "chain.der"), "rb").read()
     d = int(open(os.path.join(creddir, ccred, "sign.key")).read().strip(), 16)
     try:
-        view = tlcp_client(a, deviation, chain, d, proto=proto)
+        view = tls13_client(a, deviation, chain, d) if proto == 772 else tlcp_client(a, deviation, chain, d, proto=proto)
     except (socket.timeout, ConnectionError, OSError) as ex:
         view = {"completed": False, "why": "socket: %r" % ex}
     try:
